@@ -42,6 +42,7 @@ Conf == [
   q_hard      |-> U(<<"list", "tuple", "ntuple", "dict", "invoke">>, "hardl", "one", 2, 3, 2, 2, <<8, 10>>),
   q_hardc     |-> U(<<"coalesce">>, "hardl", "hostile", 2, 2, 1, 1, <<8>>),
   q_idx       |-> U(<<"tuple", "coalesce", "edge">>, "idxl", "one", 2, 3, 2, 2, <<4, 7, 15, 2>>),
+  q_cls       |-> U(<<"cls", "list", "tuple", "dict", "coalesce", "fill">>, "clsl", "one", 3, 3, 2, 2, <<1, 2>>),
   q_refscope  |-> U(<<"ref", "refopen", "refshadow", "dict", "tuple">>, "reflx", "one", 4, 4, 2, 2, <<1>>),
   q_ref       |-> U(<<"ref", "tuple", "coalesce">>, "refl", "one", 4, 5, 2, 2, <<1>>),
   \* ---- thorough tier ----
@@ -76,7 +77,7 @@ Conf == [
   m_ref       |-> U(<<"ref", "refopen", "refshadow", "dict", "tuple">>, "reflx", "one", 4, 4, 2, 2, <<1>>),
   probe       |-> U(<<>>, "tiny", "basic", 1, 0, 0, 0, <<1>>) ]
 
-AllKinds == {"dict0", "edge", "ntuple", "refopen", "refshadow", "inspect", "set", "sset", "specs",
+AllKinds == {"cls", "dict0", "edge", "ntuple", "refopen", "refshadow", "inspect", "set", "sset", "specs",
              "dict", "odict", "dictk", "list", "tuple", "pipe", "spec", "coalesce", "call", "invoke",
              "ref", "fill", "auto"}
 
@@ -149,8 +150,9 @@ HardLeaves == {P("h", <<"h">>), P("j", <<"j">>), P("g", <<"g">>), P("o", <<"o">>
 IdxLeaves == {P("0", <<"0">>), P("1", <<"1">>), P("2", <<"2">>), P("-1", <<"-1">>), P("-2", <<"-2">>), P("-3", <<"-3">>),
               TT(<<Step("[", VInt(0))>>), TT(<<Step("[", VInt(1))>>), TT(<<Step("[", VInt(2))>>),
               TT(<<Step("[", VInt(-1))>>), TT(<<Step("[", VInt(-3))>>)}
+ClsLeaves == {F("Tagged"), P("a", <<"a">>), TT(<<Step("[", S("a"))>>), Wrap("spec", F("Tagged")), F("inc"), F("ret_SKIP")}
 RefLeaves == {P("n", <<"n">>), P("a", <<"a">>), F("inc")}
-LeavesOf(c) == (CASE c.leaf = "tiny" -> TinyLeaves [] c.leaf = "refl" -> RefLeaves [] c.leaf = "falsyl" -> FalsyLeaves [] c.leaf = "hardl" -> HardLeaves
+LeavesOf(c) == (CASE c.leaf = "tiny" -> TinyLeaves [] c.leaf = "refl" -> RefLeaves [] c.leaf = "clsl" -> ClsLeaves [] c.leaf = "falsyl" -> FalsyLeaves [] c.leaf = "hardl" -> HardLeaves
                   [] c.leaf = "idxl" -> IdxLeaves [] c.leaf = "reflx" -> RefScopeLeaves [] c.leaf = "scopel" -> ScopeLeaves [] c.leaf = "setl" -> SetLeaves [] c.leaf = "nonel" -> NoneLeaves [] c.leaf = "argtiny" -> ArgTinyLeaves [] c.leaf = "small" -> SmallLeaves [] c.leaf = "full" -> FullLeaves
                   [] c.leaf = "argsmall" -> ArgSmallLeaves [] OTHER -> ArgLeaves)
                \cup (IF \E i \in 1..Len(c.kinds) : c.kinds[i] = "ref" THEN {RefUse} ELSE {})
@@ -311,6 +313,11 @@ Compose ==
                 \/ n \in {0, 2} /\ Made(n, [op |-> "list", kids |-> kids], FALSE)
                 \/ n = 0 /\ Made(n, [op |-> "pipe", kids |-> <<>>], FALSE)
                 \/ n = 0 /\ \E o \in CoalOpts : Made(n, [op |-> "coalesce", kids |-> <<>>, dflt |-> o.dflt, skip |-> o.skip, skipexc |-> o.skipexc], FALSE)
+          \/ /\ KindOn("cls")                      \* a class that defines glomit, in callable / func / argument / factory position
+             /\ \/ Made(n, [op |-> "call", func |-> F("Tagged"), args |-> Tup(kids), kwargs |-> EmptyDict], FALSE)
+                \/ n >= 1 /\ Made(n, Inv(F("Tagged"), <<Chunk("S", kids, <<>>)>>), FALSE)
+                \/ n = 1 /\ Made(n, [op |-> "call", func |-> F("echo"), args |-> Tup(<<F("Tagged"), kids[1]>>), kwargs |-> EmptyDict], FALSE)
+                \/ n = 1 /\ Made(n, [op |-> "coalesce", kids |-> kids, dflt |-> DFac("mk0"), skip |-> SkPred("Tagged"), skipexc |-> GE], FALSE)
           \/ KindOn("ntuple") /\ n = 2 /\ ChainOk(kids) /\ Made(n, [op |-> "ntuple", kids |-> kids], FALSE)
           \/ KindOn("list") /\ n = 1 /\ Made(n, [op |-> "list", kids |-> kids], FALSE)
           \/ KindOn("tuple") /\ ChainOk(kids) /\ Made(n, Tup(kids), FALSE)
